@@ -99,7 +99,14 @@ func choose(kind uint8, n int, cost int, tag string) int {
 // of executions. The search is exhaustive for the bound unless limit (>0) executions were reached,
 // in which case capped is true.
 func Explore(bound int, limit int, run func(prefix []int) Trace, check func(prefix []int, t Trace) bool) (execs int, capped bool, err error) {
+	return ExploreSharded(bound, limit, 0, 1, run, check)
+}
+
+// ExploreSharded splits the search over `shards` processes: the deviation-free execution is run by
+// every shard, executions reached through free (cost 0) deviations only are run by every shard too; the n-th first *costly* deviation (in DFS order) belongs to shard n % shards.
+func ExploreSharded(bound int, limit int, shard, shards int, run func(prefix []int) Trace, check func(prefix []int, t Trace) bool) (execs int, capped bool, err error) {
 	var rec func(prefix []int) bool
+	topAlt := 0 // ordinal of first-level deviations: the unit of sharding
 	rec = func(prefix []int) bool {
 		if limit > 0 && execs >= limit {
 			capped = true
@@ -136,6 +143,14 @@ func Explore(bound int, limit int, run func(prefix []int) Trace, check func(pref
 				continue
 			}
 			for alt := 1; alt < p.N; alt++ {
+				if cost == 0 && p.Cost0 > 0 && shards > 1 {
+					// first costly deviation of this branch: the unit of sharding (free deviations
+					// above it, e.g. which thread starts, are followed by every shard)
+					topAlt++
+					if (topAlt-1)%shards != shard {
+						continue
+					}
+				}
 				np := make([]int, i+1)
 				for j := 0; j < i; j++ {
 					np[j] = t.Points[j].Chosen
